@@ -329,6 +329,9 @@ fn short_actions() -> Vec<Act> {
   for t in 0..8u8 {
     v.push(Act::Tac(t));
   }
+  // the same with the unused upper bits set
+  v.push(Act::Tac(0xF9));
+  v.push(Act::Tac(0xFC));
   v.push(Act::Div);
   v.push(Act::Tima(0x00));
   v.push(Act::Tima(0xFF));
@@ -390,8 +393,11 @@ fn one_step(w: &World, ctx: &mut Ctx, phase: u32, cfg: &StepCfg) {
     ctx.count(C_SKIPPED, 1);
     return;
   }
+  // the byte written to TAC to construct the state carries the five bits that select nothing
+  // (3-7) set in every other machine-cycle phase: only bits 0-2 may matter
+  let junk: u8 = if phase & 4 != 0 { 0xF8 } else { 0x00 };
   for tac_i in 0..9usize {
-    let tac_opt = if tac_i < 8 { Some(tac_i as u8) } else { None };
+    let tac_opt = if tac_i < 8 { Some(tac_i as u8 | junk) } else { None };
     let tac_ref = if tac_i < 8 { tac_i as u8 } else { 0 };
     for &tima in cfg.timas.iter() {
       for &tma in TMA3.iter() {
@@ -405,6 +411,7 @@ fn one_step(w: &World, ctx: &mut Ctx, phase: u32, cfg: &StepCfg) {
             .set("via", J::s(via))
             .set("phase", J::u(phase as u64))
             .set("tac", if tac_i < 8 { J::u(tac_i as u64) } else { J::s("never-written") })
+            .set("tac_byte_written", if tac_i < 8 { J::u((tac_i as u8 | junk) as u64) } else { J::s("none") })
             .set("tima", J::u(tima as u64))
             .set("tma", J::u(tma as u64))
             .set("action", J::s(act))
